@@ -44,6 +44,7 @@ type schedule struct {
 	Scen        string      // "" = random fault phases; otherwise a scripted schedule (scen_test.go)
 	Rounds      []scenRound // the scripted rounds
 	MisRounds   int         // Scen "misconf": the number of bursts
+	Lost        lostCfg     // Scen "losttx"
 }
 
 func makeSchedule(idx int) schedule {
@@ -279,8 +280,8 @@ func (a *attempt) syncer(stop chan struct{}, wg *sync.WaitGroup) {
 // the validators' pools.
 func (a *attempt) feeder(stop chan struct{}, wg *sync.WaitGroup) {
 	defer wg.Done()
-	if a.sc.Scen == "misconf" {
-		return // the scenario submits its bursts itself
+	if a.sc.Scen == "misconf" || a.sc.Scen == "losttx" {
+		return // the scenario submits its transactions itself
 	}
 	if a.sc.Scen != "" {
 		// scripted schedules: a light, steady load pooled everywhere or at
@@ -520,6 +521,8 @@ func runAttempt(t testing.TB, sc schedule) (res *attemptResult, setupErr error) 
 
 	if sc.Scen == "misconf" {
 		a.misconf()
+	} else if sc.Scen == "losttx" {
+		a.lostTx()
 	} else if sc.Scen != "" {
 		a.scenario()
 	} else {
@@ -607,11 +610,12 @@ func (a *attempt) randomPhases() {
 }
 
 func TestCheck(t *testing.T) {
-	run := ev.Start("C19", "one case = one seeded network schedule over a cluster variant (N validators, optionally N+2 committee nodes with elections, or a ValidatorsHistory that changes the number of validators 4->7 / 7->4 at an epoch boundary inside the run, StateRootInHeader, extensible pool in front of the service, tiny block limits, MaxTimePerBlock): real consensus services over real ledgers and block queues. Random schedules: fault phases drawn from the seed (loss, duplication, delay/reordering, partitions, targeted loss of view-0 prepare responses so that some validators commit while the others change view, loss of every view-0 proposal so that later primaries take over, up to f validators cut/mute/deaf/late; impaired+lagging <= f outside partitions) alternate with quiet phases in which bounded progress is demanded; transactions are pooled at random subsets of nodes and fetched through RequestTx. Scripted schedules (rec-*, burst-*, epoch-burst-*; the part without the race detector repeats the bursts): commit-lock rounds (F+1 validators commit at view v in {0,1,2,..} after the proposals of the lower views were lost, the others miss the responses / the proposal / everything, so that after the faults stop the height can only be finished through RecoveryRequest and RecoveryMessage, with the full PrepareRequest or its hash only, on both StateRootInHeader settings), backlog bursts (the inbound link of up to f validators stalls for > N blocks, then payloads kept for later and a batch of blocks arrive at once while the other validators are one short of M, what the laggers send is lost and recovery messages are lost), and the same burst for f+1 validators across a shrinking of the validator set 7->4 with the block accepted by the primary alone; after every scripted fault the post-fault bounded-progress verdict applies. Schedules with validators of different node-local block limits (misconf-*): up to f validators get their own MaxBlockSize / MaxBlockSystemFee / MaxTransactionsPerBlock (larger, smaller, or one of each), the common limits are tiny, the network is perfect, bursts of transfers larger than a block of the common limits are pooled at every node, most of them timed to the odd validator's turn as primary - the others refuse its proposal and the next primary must propose what fits; bounded progress is demanded throughout and every transaction pooled everywhere must be on chain within a bound counted in heights. Distinct = cluster variant x fault kinds applied x mechanisms reached (view change, recovery, tx fetch, block sync, duplication, reordering); non-trivial = blocks were produced under faults (scripted: the commit lock was observed at the Broadcast boundary / a backlog was delivered in one burst / a height was settled at a later view after a proposal above the common limits, or over the refusal of a validator with smaller limits) and the offline checker compared the ledgers of all nodes")
+	run := ev.Start("C19", "one case = one seeded network schedule over a cluster variant (N validators, optionally N+2 committee nodes with elections, or a ValidatorsHistory that changes the number of validators 4->7 / 7->4 at an epoch boundary inside the run, StateRootInHeader, extensible pool in front of the service, tiny block limits, MaxTimePerBlock): real consensus services over real ledgers and block queues. Random schedules: fault phases drawn from the seed (loss, duplication, delay/reordering, partitions, targeted loss of view-0 prepare responses so that some validators commit while the others change view, loss of every view-0 proposal so that later primaries take over, up to f validators cut/mute/deaf/late; impaired+lagging <= f outside partitions) alternate with quiet phases in which bounded progress is demanded; transactions are pooled at random subsets of nodes and fetched through RequestTx. Scripted schedules (rec-*, burst-*, epoch-burst-*; the part without the race detector repeats the bursts): commit-lock rounds (F+1 validators commit at view v in {0,1,2,..} after the proposals of the lower views were lost, the others miss the responses / the proposal / everything, so that after the faults stop the height can only be finished through RecoveryRequest and RecoveryMessage, with the full PrepareRequest or its hash only, on both StateRootInHeader settings), backlog bursts (the inbound link of up to f validators stalls for > N blocks, then payloads kept for later and a batch of blocks arrive at once while the other validators are one short of M, what the laggers send is lost and recovery messages are lost), and the same burst for f+1 validators across a shrinking of the validator set 7->4 with the block accepted by the primary alone; after every scripted fault the post-fault bounded-progress verdict applies. Schedules with validators of different node-local block limits (misconf-*): up to f validators get their own MaxBlockSize / MaxBlockSystemFee / MaxTransactionsPerBlock (larger, smaller, or one of each), the common limits are tiny, the network is perfect, bursts of transfers larger than a block of the common limits are pooled at every node, most of them timed to the odd validator's turn as primary - the others refuse its proposal and the next primary must propose what fits; bounded progress is demanded throughout and every transaction pooled everywhere must be on chain within a bound counted in heights. Schedules with a proposed transaction the backups cannot get (losttx-*): 1-3 transactions reach the pool of the coming primary only and no peer hands them out on request (every consensus payload, block and other transaction is delivered); the backups run into their timers and ask for a change of view with the reason TxNotFound, the next primary proposes without them; afterwards the transactions are delivered to everybody (inclusion bound), kept back for another turn of the same primary, or expire; a variant makes them invalid for the others by node-local policy (MaxBlockSystemFee), with the relay cut or working (reason TxInvalid); ordinary transfers pooled everywhere are mixed in. Every payload handed to a node is decoded at the receive boundary the way its service decodes it: ChangeViews are counted by reason, a payload that does not decode is a violation. Distinct = cluster variant x fault kinds applied x mechanisms reached (view change, recovery, tx fetch, block sync, duplication, reordering); non-trivial = blocks were produced under faults (scripted: the commit lock was observed at the Broadcast boundary / a backlog was delivered in one burst / a height was settled at a later view after a proposal above the common limits, or over the refusal of a validator with smaller limits / after the backups could not get a proposed transaction) and the offline checker compared the ledgers of all nodes")
 	defer run.Finish()
 	run.Assume("the simulated network stands for the P2P layer: payloads, blocks and transactions are re-encoded and re-decoded on every hop; inv/getdata/response exchanges are folded into one message that can be lost, duplicated or delayed")
 	run.Assume("validators are honest or silent/late (cut, mute, deaf, delayed); Byzantine payloads are out of scope of the property")
 	run.Assume("the dBFT timers are real (100 ms block time): safety verdicts do not depend on timing; progress verdicts use the 200-interval bound in quiet phases, and after scripted faults 120 intervals without any accepted block during which every validator's timer demonstrably fired >= 5 times (counted at the Broadcast boundary); either needs three consecutive runs of the same schedule to fail at the same point, otherwise the run is inconclusive")
+	run.Assume("every sender is an honest node and the simulated network delivers the bytes its encoder produced: a consensus payload that does not decode at a receiver (consensus.Payload over the extensible envelope, as service.OnPayload does) is a disagreement between encoder and decoder and is reported whatever its effect on progress")
 	run.Assume("block limits are node-local settings: at most f validators differ from the others, so every block has a preparation (proposal or PrepareResponse) of a validator with the common limits; sizes are compared without the block witness, as a backup sees a proposal; a Commit for a block above the signer's own limits is only counted (dBFT lets a validator that refused a proposal join in after more than f commits)")
 	run.Assume("an honest validator signs one block per height: two different Commit payloads of one node at one height, or a ChangeView / RecoveryRequest after its Commit at that height (dBFT's commit lock), count as a safety violation although a fork needs f+1 such validators")
 	run.Assume("a fresh ledger with the same protocol settings stands for 'any other node's ledger' when committed copies of a block are replayed after serialization; peers' real ledgers additionally verify every committed witness")
@@ -639,6 +643,8 @@ func TestCheck(t *testing.T) {
 	// validators with different block limits on a perfect network: short
 	// schedules, they fill the gaps the long ones leave
 	scheds = append(scheds, misconfSchedules()...)
+	// a proposed transaction the backups cannot get
+	scheds = append(scheds, lostTxSchedules()...)
 	if v := os.Getenv("C19_ONLY"); v != "" { // development aid: prefix filter
 		scheds = slices.DeleteFunc(scheds, func(s schedule) bool { return !strings.HasPrefix(s.ID, v) })
 	}
@@ -691,11 +697,13 @@ func runSchedule(t *testing.T, run *ev.Run, sc schedule) {
 		stalls = append(stalls, res.stall+": "+res.stallMsg)
 		stallSigs = append(stallSigs, res.stall)
 		run.Obs("stalled_attempts", 1)
-		if run.HasViolations() && slices.ContainsFunc(res.an.findings, func(f finding) bool { return !strings.HasPrefix(f.Sig, "limits:") }) {
+		if run.HasViolations() && slices.ContainsFunc(res.an.findings, func(f finding) bool {
+			return !strings.HasPrefix(f.Sig, "limits:") && !strings.HasPrefix(f.Sig, "wire:")
+		}) {
 			break // a safety finding explains the stall; no need to retry
 		}
-		// (a block-limit finding names a cause, but whether progress is lost
-		// for good is still decided by three attempts)
+		// (a block-limit or wire finding names a cause, but whether progress is
+		// lost for good is still decided by three attempts)
 	}
 	sameStall := true
 	for _, s := range stallSigs {
@@ -807,7 +815,8 @@ func report(run *ev.Run, sc schedule, att int, res *attemptResult) {
 		// Broadcast boundary / a backlog of >= 2 blocks delivered in one burst)
 		// and the ledgers were compared
 		built := res.net["commit_lock_rounds_established"] + res.net["backlog_rounds"] + res.net["epoch_burst_rounds"] +
-			res.an.obs["misconf_heights_settled_at_a_later_view_after_a_refused_proposal"] + res.an.obs["misconf_blocks_above_the_limits_of_an_odd_validator_settled_without_its_preparation"]
+			res.an.obs["misconf_heights_settled_at_a_later_view_after_a_refused_proposal"] + res.an.obs["misconf_blocks_above_the_limits_of_an_odd_validator_settled_without_its_preparation"] +
+			res.net["losttx_heights_settled_after_a_view_change"]
 		nontrivial = built > 0 && res.an.obs["heights_agreed"] > 0 && res.an.obs["node_height_hashes_compared"] > 0
 		sig += fmt.Sprintf(" race-detector=%v lagger-committed-in-burst=%v", os.Getenv("VERIF_PART") != "bursts", res.net["backlog_laggers_that_committed_during_the_burst"]+res.net["epoch_burst_laggers_that_committed_during_the_burst"] > 0)
 	}
